@@ -16,6 +16,7 @@ import (
 
 type Engine struct {
 	ld        *Loaded
+	reachCache map[[2]*ssa.Function]bool
 	typeIDs   map[string]int
 	funcIDs   map[*ssa.Function]int
 	globalIDs map[*ssa.Global]int
@@ -1086,4 +1087,48 @@ func (e *Engine) callRecordNames(cc *ssa.CallCommon, out map[string]bool, depth 
 			}
 		}
 	}
+}
+
+// reaches: to is reachable from from through static calls and closures created
+// (in-module functions only; interface and function-value calls are not followed).
+func (e *Engine) reaches(from, to *ssa.Function) bool {
+	if e.reachCache == nil {
+		e.reachCache = map[[2]*ssa.Function]bool{}
+	}
+	key := [2]*ssa.Function{from, to}
+	if v, ok := e.reachCache[key]; ok {
+		return v
+	}
+	seen := map[*ssa.Function]bool{}
+	var visit func(g *ssa.Function) bool
+	visit = func(g *ssa.Function) bool {
+		if g == nil || seen[g] || !inModule(g) {
+			return false
+		}
+		seen[g] = true
+		for _, b := range g.Blocks {
+			for _, in := range b.Instrs {
+				var next []*ssa.Function
+				if ci, ok := in.(ssa.CallInstruction); ok {
+					if sc := ci.Common().StaticCallee(); sc != nil {
+						next = append(next, sc)
+					}
+				}
+				if mc, ok := in.(*ssa.MakeClosure); ok {
+					if g2, ok := mc.Fn.(*ssa.Function); ok {
+						next = append(next, g2)
+					}
+				}
+				for _, n := range next {
+					if n == to || visit(n) {
+						return true
+					}
+				}
+			}
+		}
+		return false
+	}
+	r := visit(from)
+	e.reachCache[key] = r
+	return r
 }
